@@ -1,6 +1,6 @@
 """SS: sibling agreement and small structural rules (C12, C13, C14, C15, C18, C19, C20)."""
 import hirutil as H
-from hp import (ANY_FIELD, Ctx, ANY, K, L, F, M, C, BIN, UN, CAST, TRY, P, VIA, OR, IF, CONTAINS, find, strip, canon,
+from hp import (ANY_FIELD, INDEX, Ctx, ANY, K, L, F, M, C, BIN, UN, CAST, TRY, P, VIA, OR, IF, CONTAINS, find, strip, canon,
                 struct_field_inits)
 from facts import callee_of, op_local, op_place, place_key, resolve_ref, value_def, field_path
 from common import loc_of
@@ -27,10 +27,25 @@ def _closure_cmp(ctx, e):
         recv = strip(body['recv'])
         if recv.get('k') == 'field' and recv.get('n') == 'time':
             return strip(body['args'][0])
-        if recv.get('k') == 'mcall' and recv.get('name') in ('time', 'timestamp') and not recv.get('args'):
+        if recv.get('k') == 'mcall' and not recv.get('args') and (
+                recv.get('name') in ('time', 'timestamp') or _is_time_accessor(ctx.facts, recv.get('name'))):
             return strip(body['args'][0])       # `probe.time()` accessor of a private trait
         return False
     return False
+
+
+def _is_time_accessor(facts, name):
+    """every crate-local impl of the zero-argument method `name` returns `self.time`"""
+    impls = [h for p, h in facts.hir.items() if p.endswith('>::' + str(name))]
+    if not impls:
+        return False
+    for h in impls:
+        body = h['body']
+        tail = strip(body.get('expr') if body.get('k') == 'block' and not body.get('stmts') else body)
+        if not (isinstance(tail, dict) and tail.get('k') == 'field' and tail.get('n') == 'time' and
+                strip(tail['e']).get('k') == 'local' and strip(tail['e']).get('name') == 'self'):
+            return False
+    return True
 
 
 # ------------------------------------------------------------------------------ C13
@@ -117,6 +132,30 @@ def run_c13(facts, out):
         hits = find(ctx, hfn['body'], pat)
         adds = find(ctx, hfn['body'], M('add', L('point'), L('self')))
         ok = len(hits) >= 1 and len(adds) == 1
+        if not ok:
+            # any spelling: on every path the point's `add` runs exactly when its redundancy test ran before and said no
+            import symeval as SE
+            try:
+                paths = SE.call_paths(hfn, ('check_already_existing', 'add'))
+                good = bool(paths)
+                n_add = 0
+                for conds, calls in paths:
+                    tested = [pol for c, pol in conds if c[0] == 'e' and 'check_already_existing' in repr(c[1])[:2000]]
+                    # polarity of the test as written (a leading `!` flips it)
+                    flips = [str(strip(c[1]).get('k')) == 'unary' for c, pol in conds
+                             if c[0] == 'e' and 'check_already_existing' in repr(c[1])[:2000]]
+                    redundant = None
+                    if tested:
+                        redundant = tested[0] if not flips[0] else not tested[0]
+                    if 'add' in calls:
+                        n_add += 1
+                        if redundant is not False or calls.count('add') != 1:
+                            good = False
+                    elif redundant is False:
+                        good = False            # not redundant but not added
+                ok = good and n_add >= 1
+            except SE.Stop:
+                pass
         b = facts.body(fn)
         out.add('SS-C13', fn, 'redundancy-test-first', '%s:%d' % (b.file, b.line), ok,
                 '' if ok else 'a point is inserted without (or before) the redundancy test', ordinal=False)
@@ -136,6 +175,14 @@ def run_c13(facts, out):
         ctx = Ctx(facts, H.binding_inits(hfn), hfn)
         res, _ = exp[kind](ctx, hfn)
         ok, why = res if isinstance(res, tuple) else (res, '')
+        if not ok:
+            # any spelling: the function's result as a decision tree
+            try:
+                tok, twhy = _cae_tree(facts, hfn, kind, lst, ty)
+            except Exception:
+                tok, twhy = False, ''
+            if tok:
+                ok, why = True, ''
         if not ok:
             # the search may live in a shared private helper: same question with it inlined (closures beta-reduced)
             for dpt in (1, 2):
@@ -162,6 +209,103 @@ def run_c13(facts, out):
         out.add('SS-C13', fn, 'lookup', where, not why, why, ordinal=False)
 
 
+def _cae_tree(facts, hfn, kind, lst, ty):
+    """check_already_existing as a decision tree (symeval), for any spelling:
+       timing:            false
+       difficulty/effect: lookup(self.time) is Some(p) -> self.is_redundant(p); None -> self.is_redundant(&T::default())
+       sample:            binary search of the sample list for self.time: Ok(i) -> is_redundant(&list[i]);
+                          Err(0) -> false; Err(i) -> is_redundant(&list[i - 1])"""
+    import symeval as SE
+    for dpt in (0, 1, 2):
+        vh = hfn if dpt == 0 else H.inlined_fn(facts, hfn, depth=dpt, keep=('is_redundant', '_point_at'))
+        ctx = Ctx(facts, H.binding_inits(vh), vh)
+        ev = SE.SymEval(None, budget=6000)
+        body = vh['body']
+        try:
+            tree = ev.seq(list(body.get('stmts', [])), body.get('expr'), {},
+                          lambda env, tail: ev.value(tail, env) if tail is not None else ('v', {'k': 'unit'}),
+                          kret=lambda vt, env=None: vt)
+        except SE.Stop:
+            continue
+        lv = SE.leaves(tree)
+        SELF = L('self')
+        TIME = F(SELF, 'time')
+        good = True
+        if kind == 'timing':
+            good = all(ctx.const_value(l) is False for _p, l in lv) and bool(lv)
+        elif kind in ('difficulty', 'effect'):
+            look = M(kind + '_point_at', ANY(), TIME)
+            n_some = n_none = 0
+            for path, leaf in lv:
+                some = None
+                for c, pol in path:
+                    if c[0] == 'pat' and look.m(ctx, c[2]) and 'Some' in repr(c[1])[:400]:
+                        some = pol
+                        bound = H.pat_bindings(c[1])
+                    elif c[0] == 'pat' and look.m(ctx, c[2]) and 'None' in repr(c[1])[:400]:
+                        some = not pol
+                        bound = []
+                    else:
+                        some = some if some is not None else None
+                        if some is None and c[0] in ('e', 'pat'):
+                            good = False         # a test on anything else
+                if some is True:
+                    n_some += 1
+                    if not (M('is_redundant', SELF, ANY()).m(ctx, leaf) and
+                            isinstance(strip(strip(leaf)['args'][0]), dict) and strip(strip(leaf)['args'][0]).get('k') == 'local'
+                            and strip(strip(leaf)['args'][0]).get('name') in (bound or ['__x'])):
+                        good = False
+                elif some is False:
+                    n_none += 1
+                    if not M('is_redundant', SELF, C('default')).m(ctx, leaf):
+                        good = False
+                else:
+                    good = False
+            good = good and n_some == 1 and n_none == 1
+        else:
+            search = M('binary_search_by', F(ANY(), lst), ANY())
+            cases = {}
+            for path, leaf in lv:
+                case = None
+                idx_name = None
+                sigs = []
+                for c, pol in path:
+                    if c[0] == 'pat' and search.m(ctx, c[2]):
+                        sg = repr(c[1])
+                        is_ok = "'name': 'Ok'" in sg
+                        is_err0 = "'name': 'Err'" in sg and "'v': 0" in sg
+                        is_err = "'name': 'Err'" in sg and not is_err0
+                        sigs.append(('ok' if is_ok else 'err0' if is_err0 else 'err', pol, H.pat_bindings(c[1])))
+                    else:
+                        good = False
+                pos = [x for x in sigs if x[1]]
+                if pos:
+                    case, _pl, bound = pos[-1]
+                else:
+                    neg = {x[0] for x in sigs}
+                    case = ({'ok', 'err0', 'err'} - neg)
+                    case = next(iter(case)) if len(case) == 1 else None
+                    bound = []
+                cases.setdefault(case, []).append((leaf, bound))
+            if set(cases) != {'ok', 'err0', 'err'} or any(len(v) != 1 for v in cases.values()):
+                good = False
+            else:
+                lk, bk = cases['ok'][0]
+                le, be = cases['err'][0]
+                l0, _b0 = cases['err0'][0]
+                good = good and ctx.const_value(l0) is False
+                anyloc = lambda names: (L(names[0]) if names else ANY())
+                good = good and M('is_redundant', SELF, INDEX(F(ANY(), lst), anyloc(bk))).m(ctx, lk) and \
+                    strip(strip(strip(lk)['args'][0])['i']).get('k') == 'local'
+                good = good and M('is_redundant', SELF, INDEX(F(ANY(), lst), BIN('Sub', anyloc(be), K(1)))).m(ctx, le)
+            # the search itself: on the sample list, by total_cmp against self.time
+            if good:
+                good = bool(find(ctx, vh['body'], M('binary_search_by', F(ANY(), lst), CONTAINS(M('total_cmp', F(ANY(), 'time'), TIME)))))
+        if good:
+            return True, ''
+    return False, ''
+
+
 def _inlined_body(facts, hfn):
     """the function body with calls of crate-local helpers inlined (see hirutil.inline_calls)"""
     return H.inline_calls(facts, hfn, depth=2)
@@ -172,6 +316,13 @@ def _check_lookup(facts, hfn, kind, lst):
     vh = {'path': hfn['path'], 'params': hfn.get('params', []), 'body': body}
     ctx = Ctx(facts, H.binding_inits(vh), vh)
     bs = find(ctx, body, M('binary_search_by', ANY(), ANY()))
+    # a block whose only content is the call (an inlined one-line helper) is the call
+    seen_ids, uniq = set(), []
+    for hit in bs:
+        if id(strip(hit[0])) not in seen_ids:
+            seen_ids.add(id(strip(hit[0])))
+            uniq.append(hit)
+    bs = uniq
     if len(bs) != 1:
         return 'lookup does not use exactly one binary_search_by'
     why = ''
@@ -195,6 +346,8 @@ def _check_lookup(facts, hfn, kind, lst):
     other = 'saturating_sub' if fb == 'checked_sub' else 'checked_sub'
     has = find(ctx, body, M(fb, ANY(), K(1)))
     hasnt = find(ctx, body, M(other, ANY(), ANY()))
+    if not has and not hasnt and _lookup_tree(ctx, vh, lst, fb):
+        has = True          # the same fallback spelled as arms over the search result
     if not has or hasnt:
         why = why or ('before the first point the %s lookup must %s; found `%s`' % (
             kind, 'return nothing (checked_sub)' if fb == 'checked_sub' else 'return the first point (saturating_sub)',
@@ -214,6 +367,49 @@ def _check_lookup(facts, hfn, kind, lst):
     if used != {(lst,)}:
         why = why or 'the found index is applied to %s instead of `%s`' % (sorted(used), lst)
     return why
+
+
+def _lookup_tree(ctx, vh, lst, fb):
+    """the lookup as a decision tree over the search result: Ok(i) -> element i; Err(0) -> nothing (checked_sub) or the
+    first element (saturating_sub); Err(i) -> element i - 1"""
+    import symeval as SE
+    ev = SE.SymEval(None, budget=6000)
+    body = vh['body']
+    try:
+        tree = ev.seq(list(body.get('stmts', [])), body.get('expr'), {},
+                      lambda env, tail: ev.value(tail, env) if tail is not None else ('v', {'k': 'unit'}),
+                      kret=lambda vt, env=None: vt)
+    except SE.Stop:
+        return False
+    search = M('binary_search_by', F(ANY(), lst), ANY())
+    cases = {}
+    for path, leaf in SE.leaves(tree):
+        sigs = []
+        for c, pol in path:
+            if c[0] == 'pat' and search.m(ctx, c[2]):
+                sg = repr(c[1])
+                is_ok = "'name': 'Ok'" in sg
+                is_err0 = "'name': 'Err'" in sg and "'v': 0" in sg
+                sigs.append(('ok' if is_ok else 'err0' if is_err0 else 'err', pol))
+            else:
+                return False
+        pos = [x for x in sigs if x[1]]
+        if pos:
+            case = pos[-1][0]
+        else:
+            rest = {'ok', 'err0', 'err'} - {x[0] for x in sigs}
+            case = next(iter(rest)) if len(rest) == 1 else None
+        cases.setdefault(case, []).append(leaf)
+    if set(cases) != {'ok', 'err0', 'err'} or any(len(v) != 1 for v in cases.values()):
+        return False
+    elem = lambda idx: OR(C('Some', INDEX(F(ANY(), lst), idx)), M('get', F(ANY(), lst), idx))
+    lk, l0, le = cases['ok'][0], cases['err0'][0], cases['err'][0]
+    ok = elem(ANY()).m(ctx, lk) and elem(BIN('Sub', ANY(), K(1))).m(ctx, le)
+    if fb == 'checked_sub':
+        ok = ok and P('None').m(ctx, l0)
+    else:
+        ok = ok and (elem(K(0)).m(ctx, l0) or M('first', F(ANY(), lst)).m(ctx, l0))
+    return ok
 
 
 def _pat_name(p):
